@@ -254,12 +254,20 @@ def run_ibs(ctx, c):
     Qb = RB.point_to_octets(M, RB.pubkey_calc(M, d))
     idh = hval(c, "idh", l, q)
     k0 = int.from_bytes(expand(c["seed"] + "k0", n), "little") % (q - 1) + 1
+    if c["d"] == "ezero":
+        # boundary of B.2.3: a trusted-party key for which the extracted private key is e = (S1 + H0) mod q = k0 - (S0 + 2^l) d = 0
+        # (S0 depends on k0 G, the OID and H0 only); e = 0 is an admissible identity key, signing and verification must work with it
+        s0 = int.from_bytes(RB.sign(M, oid, idh, 1, k0)[:n // 2], "little")
+        d = k0 * pow(s0 + (1 << l), -1, q) % q
+        Qb = RB.point_to_octets(M, RB.pubkey_calc(M, d))
     sig0 = RB.sign(M, oid, idh, d, k0)
     ipriv, ipub = x.out(n), x.out(2 * n)
     r = x.call("bignIdExtract", ipriv, ipub, P, OID, len(oid), x.buf(idh), x.buf(sig0), x.buf(Qb))
     if r:
         raise Fail("bignIdExtract failed on a valid signature: %s" % ename(r))
     e, R = RB.id_extract(M, oid, idh, sig0, Qb)
+    if c["d"] == "ezero" and e != 0:
+        raise RuntimeError("construction of e = 0 failed")
     if int.from_bytes(ipriv.read(), "little") != e or ipub.read() != RB.point_to_octets(M, R):
         raise Fail("bignIdExtract != model (l=%d)" % l)
     H = hval(c, "h", l, q)
@@ -306,13 +314,13 @@ def run_ibs(ctx, c):
     if (r == 0) != (not isinstance(me, str)):
         raise Fail("bignIdExtract verdict %s on an altered signature, model %s" % (ename(r), me if isinstance(me, str) else "accept"))
     ctx.cls("ibs_" + alt, "l%d" % l)
-    ctx.nontrivial("ibs", l, alt, c["h"], c["t"])
+    ctx.nontrivial("ibs", l, alt, c["h"], c["t"], c["d"] == "ezero")
     ctx.sample(c)
 
 
 S_IBS = st.fixed_dictionaries({
     "l": st.sampled_from([128, 192, 256]), "seed": st.binary(min_size=1, max_size=4).map(bytes.hex), "oid": st.sampled_from(OIDS),
-    "d": st.sampled_from(["rnd", "one", "qm1"]), "h": st.sampled_from(["rnd", "rnd", "zero", "q", "max"]), "idh": st.sampled_from(["rnd", "rnd", "zero", "max"]),
+    "d": st.sampled_from(["rnd", "rnd", "one", "qm1", "ezero"]), "h": st.sampled_from(["rnd", "rnd", "zero", "q", "max"]), "idh": st.sampled_from(["rnd", "rnd", "zero", "max"]),
     "rejk": REJ, "t": st.sampled_from([None, 0, 1, 32, 100]), "alt": st.sampled_from(["none", "sigbit", "hbit", "idbit", "pubneg", "qneg", "s1q"]), "bit": st.integers(0, 2000)})
 
 
